@@ -18,4 +18,27 @@ func internal.CreateFile(filename, fi) (f, err)
   ensures err == nil ==> f != nil && fresh(f) && file_written[f] == 0 && file_path[f] == filename && !file_closed[f]
   ensures err == nil ==> path_handle == old(path_handle)[filename := f] && path_synced == old(path_synced)[filename := false]
   ensures err != nil ==> f == nil && path_handle == old(path_handle) && path_synced == old(path_synced)
+
+// C10: a ResumableReader delivers the bytes of one file in order: every (re)open asks for the same file
+// from the number of bytes delivered so far; the offset advances by exactly the bytes returned; io.EOF is
+// reported only at the known end of the file (or when the size is unknown); a retry failure is sticky.
+func internal.(*ResumableReader).retry(r, err) (res)
+  requires r != nil
+  modifies $alloc, r.retryN, r.err
+  ensures [C10.retry-sticky] res != nil ==> r.err == res
+  ensures res == nil ==> r.err == old(r.err) || r.err == nil
+  ensures res != io.EOF
+
+ghost rr_rerr Int
+func internal.(*ResumableReader).Read(r, p) (n, err)
+  requires r != nil && 0 <= r.offset && r.offset <= 4611686018427387904 && len(p) <= 1073741824
+  modifies $alloc, elems(p), r.offset, r.rc, r.retryN, r.err, rr_rerr
+  at internal.LTXFileOpener.OpenLTXFile#1 assert [C10.resume-offset] $recv == r.client && $arg1 == r.level && $arg2 == r.minTXID && $arg3 == r.maxTXID && $arg4 == r.offset && $arg5 == 0 && r.offset == old(r.offset)
+  at io.ReadCloser.Read#1 assert [C10.read-into-caller-buffer] $recv == r.rc && r.rc != nil && r.offset == old(r.offset)
+  at io.ReadCloser.Read#1 set rr_rerr = $result1
+  ensures [C10.offset-counts] 0 <= n && n <= len(p) && r.offset == old(r.offset) + n
+  ensures [C10.eof-complete] err == io.EOF && old(r.err) == nil ==> rr_rerr == io.EOF && (r.size <= 0 || r.offset >= r.size)
+  ensures [C10.sticky-error] old(r.err) != nil ==> err == old(r.err) && n == 0
+  ensures [C10.no-silent-short-read] err == nil && old(r.err) == nil ==> n > 0 || rr_rerr == nil
+  loop 0 invariant r == old(r) && r.offset == old(r.offset) && r.err == nil && r.size == old(r.size) && r.client == old(r.client) && r.level == old(r.level) && r.minTXID == old(r.minTXID) && r.maxTXID == old(r.maxTXID)
 */
